@@ -30,9 +30,12 @@ type rec struct {
 type capture struct {
 	recs []rec
 	seq  *int
+	// the handler enables its levels at run time (like a slog.LevelVar raised after
+	// start-up): nothing is enabled while the middleware, the router and the routes are built
+	live bool
 }
 
-func (c *capture) Enabled(context.Context, slog.Level) bool { return true }
+func (c *capture) Enabled(context.Context, slog.Level) bool { return c.live }
 func (c *capture) Handle(_ context.Context, r slog.Record) error {
 	*c.seq++
 	m := map[string]string{}
@@ -306,6 +309,7 @@ func (w *world) evalStep(g int, st Step) (string, string) {
 		rw = fx.NewRW()
 		w.curRW = rw
 		defer func() { pv = recover() }()
+		w.cap.live = true
 		if st.Beh.Kind == "flush-then-status" {
 			f.ServeHTTP(flushingRW{rw}, r)
 		} else {
